@@ -622,6 +622,112 @@ pub fn check_many(case: &ManyCase) -> CaseResult {
     Ok(classes)
 }
 
+/// a flush request that arrives, with a backlog appended just before it, while the writer is
+/// INSIDE the stream flush it performs for an earlier request
+#[derive(Clone, Debug, Serialize, Deserialize)]
+pub struct DuringFlushCase {
+    pub boxed: bool,
+    pub qkind: u8,
+    /// entries before the first request
+    pub k1: u8,
+    /// entries appended while the writer is held inside stream.flush(), before the second request
+    pub m: u16,
+    /// spare capacity beyond k1 + m
+    pub spare: u8,
+    pub long_interval: bool,
+    /// entries appended after the second request (they may or may not be written before it completes)
+    pub after: u8,
+}
+
+pub fn check_during_flush(case: &DuringFlushCase) -> CaseResult {
+    let log = Arc::new(EventLog::default());
+    let gate = Gate::new(true);
+    let mut stream = BqStream::new(vec![], gate.clone(), log.clone());
+    // ~50 us per entry: an early completion is seen by the watcher while the backlog is still queued
+    stream.jitter = vec![47];
+    let hold = Arc::new(FlushHold::default());
+    stream.flush_hold = Some(hold.clone());
+    let k1 = case.k1.max(1) as usize;
+    let m = case.m.max(1) as usize;
+    let cap = k1 + m + case.after as usize + case.spare as usize + 1;
+    let interval = if case.long_interval { Duration::from_secs(30) } else { Duration::from_millis(1) };
+    let qkind = [0u8, 1, 2, 4, 5][case.qkind as usize % 5];
+    let (q, handle) = super::c01::build_queue_kind(qkind, cap, case.boxed, interval, stream);
+    let mut seq = 0u32;
+    let mut append = |n: usize| {
+        for _ in 0..n {
+            let id = Id { p: 0, s: seq };
+            seq += 1;
+            log.push(Ev::AppendStart(id));
+            q.append(TestE(id));
+            log.push(Ev::AppendEnd(id));
+        }
+    };
+    append(k1);
+    hold.arm();
+    log.push(Ev::FlushReq(1));
+    let mut f1 = Box::pin(q.flush_async());
+    if poll_once(f1.as_mut()).is_ready() {
+        log.push(Ev::FlushDone(1));
+    }
+    if !hold.wait_in_flush(Duration::from_secs(5)) {
+        hold.release();
+        let _ = no_panic("queue-shutdown", || handle.shut_down());
+        return Ok(vec!["inconclusive-timeout"]);
+    }
+    // the writer sits inside stream.flush() (for request 1 or a periodic flush): a backlog and a
+    // second request arrive meanwhile
+    append(m);
+    log.push(Ev::FlushReq(2));
+    let mut f2 = Box::pin(q.flush_async());
+    let f2_ready = poll_once(f2.as_mut()).is_ready();
+    if f2_ready {
+        log.push(Ev::FlushDone(2));
+    }
+    append(case.after as usize);
+    let watcher = {
+        let log = log.clone();
+        let f1_done = log.count(|e| matches!(e, Ev::FlushDone(1))) > 0;
+        std::thread::spawn(move || {
+            let mut pending: Vec<(u32, std::pin::Pin<Box<metrique_writer_core::sink::FlushWait>>)> = vec![];
+            if !f1_done {
+                pending.push((1, f1));
+            }
+            if !f2_ready {
+                pending.push((2, f2));
+            }
+            let t0 = std::time::Instant::now();
+            while !pending.is_empty() && t0.elapsed() < Duration::from_secs(15) {
+                pending.retain_mut(|(i, f)| {
+                    if poll_once(f.as_mut()).is_ready() {
+                        log.push(Ev::FlushDone(*i));
+                        false
+                    } else {
+                        true
+                    }
+                });
+                std::thread::yield_now();
+            }
+            pending.len()
+        })
+    };
+    hold.release();
+    let still = watcher.join().unwrap_or(2);
+    drop(q);
+    no_panic("queue-shutdown", || handle.shut_down())?;
+    if still > 0 {
+        return Ok(vec!["inconclusive-timeout"]);
+    }
+    let evs = log.snapshot();
+    check_flush_barrier(&evs, cap)?;
+    let mut classes: Classes = vec!["request-while-writer-inside-waiter-flush"];
+    if m > 32 {
+        classes.push("backlog-over-32-behind-the-second-request");
+        classes.push("nt");
+    }
+    Ok(classes)
+}
+
 pub fn run(ctx: &mut Ctx) {
     ctx.assume("level 1 drives the real WakerTracker through hook H2a under the preconditions its source documents (Drained only after the queue was empty since the last handle; HitDeadline only with a positive multiple of 32 entries)");
     ctx.assume("liveness is decided by counting entries written / handle calls, never by wall-clock time; the bound for a never-empty queue is capacity + 128 pops at thread level and 2*capacity + 64 at state-machine level");
@@ -726,5 +832,20 @@ pub fn run(ctx: &mut Ctx) {
                 })
         },
         check_many,
+    );
+    ctx.explore(
+        SubCfg::new(
+            "c04-request-during-waiter-flush",
+            "real queue (all builder kinds), ungated writer, stream ~50 us per entry: 1-20 entries, flush request 1; the writer is held INSIDE the stream.flush() it performs (for the waiters, or periodically); meanwhile 1-400 more entries are appended and request 2 is issued (then 0-20 more entries); the hold is released and a watcher logs both completions as they happen. Oracle: the barrier over the event log - request 2 completes only after every entry appended before it was written and the stream flushed after them. Non-trivial = more than 32 entries behind the second request",
+            if q { 400 } else { 8_000 },
+        )
+        .threads(ctx.tier.pick(4, 8))
+        .shrink_iters(40)
+        .mandatory(&["backlog-over-32-behind-the-second-request"]),
+        || {
+            (any::<bool>(), prop_oneof![3 => Just(0u8), 2 => 1u8..5], 1u8..20, prop_oneof![1u16..33, 33u16..400], any::<u8>(), any::<bool>(), 0u8..20)
+                .prop_map(|(boxed, qkind, k1, m, spare, long_interval, after)| DuringFlushCase { boxed, qkind, k1, m, spare, long_interval, after })
+        },
+        check_during_flush,
     );
 }
